@@ -235,8 +235,16 @@ def s_ioerr(F, R):
             if x.get("k") != "Call":
                 continue
             d = x["fn"].get("def") or ""
-            if d not in READ_OK | WRITE_OK or d.endswith("poll_read"):
+            if d.endswith("poll_read"):
                 continue
+            # producers of an io::Result: the transport / sink calls and every function (crate helper or foreign) returning one;
+            # Result's own combinators are consumers, not producers
+            io_typed = _err_type(x.get("ty")) == "std::io::error::Error" and not d.startswith("core::result::Result") and \
+                not d.startswith("core::ops::try_trait") and x["fn"].get("name") not in ("from_residual", "branch", "from_output")
+            if d not in READ_OK | WRITE_OK and not io_typed:
+                continue
+            if x["args"] and "alloc::vec::Vec<u8>" in (strip(x["args"][0]).get("ty") or x["args"][0].get("ty") or ""):
+                continue      # std: `impl Write for Vec<u8>` never fails; nothing to propagate
             n += 1
             if par is None:
                 par = _parents(b)
@@ -253,16 +261,11 @@ def s_ioerr(F, R):
             first = chain[0] if chain else {}
             if first.get("k") == "Try":
                 R.ok("S-ioerr", key, "`?`")
+            elif first.get("k") == "Return":
+                R.ok("S-ioerr", key, "returned to the caller as it is")
             elif first.get("k") == "Call" and first["fn"].get("name") == "map_err" and len(chain) > 1 and chain[1].get("k") == "Try":
-                clo = first["args"][1]
-                ok, desc = (False, pp(clo)[:80])
-                if clo.get("k") == "Closure":
-                    ok, desc = _kind_preserving_closure(F, clo["def"])
-                elif _is_io_from_ref(clo):
-                    ok, desc = True, "From<io::Error>"
                 nmap += 1
-                R.check(ok, "S-ioerr", key + "/map_err",
-                        "%s maps an I/O error with %s: the error kind of the transport is not preserved" % (f["root"], desc), where=loc(first))
+                R.ok("S-ioerr", key + "/map_err", "map_err then `?` (that the mapping keeps the kind is H-noswallow's evaluated rule)")
             elif first.get("k") == "Block" and first.get("expr") is not None and f["root"].startswith("common::utils::write_"):
                 R.ok("S-ioerr", key, "returned as the function's io::Result")
             elif first.get("k") is None and "pat" in first:
@@ -272,16 +275,21 @@ def s_ioerr(F, R):
                 if _is_tail_of_fn(par, x, b):
                     R.ok("S-ioerr", key, "tail")
                 else:
-                    R.fail("S-ioerr", key + "/discarded", "%s does not propagate the result of %s (%s)" % (f["root"], d, first.get("k")), where=loc(x))
+                    how = first.get("k")
+                    if how == "Call":
+                        how = "passed to %s" % (first["fn"].get("def") or first["fn"].get("name"))
+                    R.fail("S-ioerr", key + "/discarded",
+                           "%s does not propagate the io::Result of %s with `?` before going on (%s): a failed read/write is followed by "
+                           "further I/O or is dropped" % (f["root"], d, how), where=loc(x))
     R.floor("S-ioerr", "io::Result call sites", n, 14)
-    R.floor("S-ioerr", "kind-preserving map_err closures", nmap, 3)
     # the poll decoder's poll_read results are decided by the evaluated transfer functions P-header / P-body (transport error,
     # Pending and zero-length read cases), not by the shape of its match arms
 
 
 def _is_tail_of_fn(par, x, b):
+    """x *is* the value the function returns (through blocks / await / borrows only), not an operand of something else."""
     node = x
-    while id(node) in par:
+    while id(node) in par and node is not b:
         p = par[id(node)]
         if p.get("k") == "Block":
             if p.get("expr") is not node:
@@ -289,7 +297,7 @@ def _is_tail_of_fn(par, x, b):
         elif p.get("k") in ("Await", "Borrow", "Deref"):
             pass
         else:
-            return p is b
+            return False
         node = p
     return True
 
